@@ -128,13 +128,14 @@ func runC11CLI(c *engine.Case) engine.Result {
 	if outFile != "" {
 		b, err := os.ReadFile(outFile)
 		if err != nil {
-			res.Violation = fmt.Sprintf("jd %s: the -o file was not written (exit %d, stderr %q)", strings.Join(args[:len(args)-2], " "), out.Exit, firstLine(out.Stderr))
+			res.Violation = fmt.Sprintf("jd -f merge %s: the -o file was not written (exit %d, stderr %q)", c.X, out.Exit, firstLine(out.Stderr))
 			return res
 		}
 		got = string(b)
 	}
 	wv, _ := ref.Parse(want)
 	gv, gerr := ref.Parse(got)
+	shown := "-f merge " + c.X // (not the argument vector: it holds scratch paths)
 	switch {
 	case out.Timeout:
 		res.Violation = "CLI did not terminate"
@@ -144,7 +145,7 @@ func runC11CLI(c *engine.Case) engine.Result {
 		if len(got) > 300 {
 			got = got[:300] + "..."
 		}
-		res.Violation = fmt.Sprintf("jd %s wrote %q, the library renders the merge patch as %q", strings.Join(args[:len(args)-2], " "), got, want)
+		res.Violation = fmt.Sprintf("jd %s wrote %q, the library renders the merge patch as %q", shown, got, want)
 	}
 	return res
 }
